@@ -218,3 +218,25 @@ Proof.
   intros Hl H. apply nth_ext with (d:=0) (d':=0); [exact Hl|].
   intros n Hn. specialize (H (N.of_nat n)). unfold nthN, blen in H. rewrite Nat2N.id in H. apply H. lia.
 Qed.
+
+(* the same slice computed in one pass (the models copy long ranges with it) *)
+Definition slice_fast (b:buf) (a:N) (n:nat) : list N :=
+  let avail := firstn n (skipn (N.to_nat a) b) in
+  map (fun x => x mod 256) avail ++ repeat 0 (n - length avail).
+Lemma slice_fast_eq b a n : slice_fast b a n = slice b a n.
+Proof.
+  unfold slice_fast. set (avail := firstn n (skipn (N.to_nat a) b)).
+  assert (Hla : (length avail <= n)%nat) by (unfold avail; apply firstn_le_length).
+  apply nth_ext with (d:=0) (d':=0).
+  - rewrite app_length, map_length, repeat_length, length_slice. lia.
+  - intros i Hi. rewrite app_length, map_length, repeat_length in Hi.
+    rewrite nth_slice by lia.
+    destruct (Nat.lt_ge_cases i (length avail)) as [Hlt|Hge].
+    + rewrite app_nth1 by (rewrite map_length; exact Hlt).
+      rewrite nth_indep with (d' := (fun x => x mod 256) 0) by (rewrite map_length; exact Hlt).
+      rewrite (map_nth (fun x => x mod 256)). unfold avail. rewrite Sym.nth_firstn_lt by (unfold avail in Hlt; rewrite firstn_length in Hlt; lia).
+      rewrite Sym.nth_skipn. unfold byte_at, nthN. do 2 f_equal. lia.
+    + rewrite app_nth2 by (rewrite map_length; exact Hge). rewrite nth_repeat.
+      unfold byte_at, nthN. rewrite nth_overflow; [reflexivity|].
+      unfold avail in Hge. rewrite firstn_length, skipn_length in Hge. lia.
+Qed.
